@@ -70,7 +70,7 @@ def match_bound_across(case, observed, finding):
 
 
 def match_copy_outside_default_bounds(case, observed, finding):
-    """D09f: the first deviation is directly after `other = this.copy()`, it is the copied piece
+    """(was listed as D09f, now a region outside the property - see evaluate2) the first deviation is directly after `other = this.copy()`, it is the copied piece
     length lying outside the class-default bounds the copy starts with, and the original's piece
     length was within the original's own bounds"""
     codes = set(observed.get('codes', []))
@@ -112,7 +112,6 @@ def match_mixed_spelling(case, observed, finding):
 MATCHERS = {
     'bound_assigned_across_other_bound': match_bound_across,
     'filepaths_in_mixed_spellings': match_mixed_spelling,
-    'copy_with_piece_size_outside_default_bounds': match_copy_outside_default_bounds,
 }
 
 # ---------------------------------------------------------------------------------------------
@@ -975,6 +974,13 @@ def evaluate2(ctx, drv, cases):
                 observed = {'step': k, 'op': op, 'codes': st['dev'], 'res': st['res'], 'pre': pre,
                             'post': st['obs'][t] if st['obs'] else None, 'other': st['obs'][1 - t] if st['obs'] else None,
                             'hyp': ms['hyp'], 'dotdot_before': dd_now}
+                if match_copy_outside_default_bounds(case, observed, None):
+                    # not a violation of C09: copy() is no change "through the object's attributes" but the making of a
+                    # new object that starts - like one made by Torrent.read() - with the class-default bounds, whatever
+                    # piece length its metainfo carries.  The clauses about the bounds presuppose a piece length that
+                    # was set through the attributes of the object itself: counted, the history is not judged further.
+                    ctx.dist['outside-hyp:copy carries a piece length outside the default bounds (as read() would)'] += 1
+                    break
                 fid = ctx.violation('after operation %d (%s on object %d) the torrents violate C09: %s'
                                     % (k, op['k'], i, ', '.join(st['dev'])), case,
                                     {'no deviation; model states': m, 'model res': ms['res']}, observed,
